@@ -47,5 +47,5 @@ Extraction "model.ml"
   PoLexer.detect_encoding PoLexer.codecs_open_text PoLexer.load_po PoLexer.pofile
   FmtInstances.perl_parse_ucd FmtPerlBrace.names_of
   FmtInstances.fmtpy_parse_gen CPyPercent.cpy_events CPyPercent.cpy_syntax_error CPyPercent.plain_percents CPyPercent.cpy_format
-  FmtInstances.pybrace_parse_gen CPyFormat.cpy_markup CPyFormat.cpy_format Ucd.re_d_value
+  FmtInstances.pybrace_parse_gen FmtInstances.pybrace_domain_gen CPyFormat.cpy_markup CPyFormat.cpy_format Ucd.re_d_value
   .
